@@ -45,6 +45,9 @@ CHECKS = {
             'accepted only for documented conflicts', 'DESIGN.md 2/C12'),
     'C13': (EX[0], EX[1], 'one pair exhaustive; two pairs: all of F(4) x 16 sets canonical, family for '
             'other configurations; three pairs over relation family', 'DESIGN.md 2/C13'),
+    'C14': (MC[0], MC[1], 'every history of declarations / constructions / collections / swaps / removals '
+            '(every subset) up to the completed depth; list model of the order decides accept/refuse',
+            'DESIGN.md 2/C14'),
     'C18': (EX[0], EX[1], 'all functions, root sets of size 1-2, every view evaluated',
             'DESIGN.md 2/C18'),
 }
